@@ -215,6 +215,32 @@ def rule_tables(ctx):
             ctx.missing(R, "DegreeRange::iter_inf/iter_opt", "cannot evaluate: %s" % u)
 
 
+def astlib_result(e):
+    from astlib import result_expr
+    e = strip(e)
+    return result_expr(e) if e["k"] == "Block" else e
+
+
+def function_polarity(cond, positive, le, depth=0):
+    """True when `cond` holding (positive) / failing means the definition is a function, False when it means it is not,
+    None when the condition does not speak about the definition type."""
+    c = strip(cond)
+    if depth > 4:
+        return None
+    if c["k"] == "Unary" and c["op"] == "!":
+        return function_polarity(c["e"], not positive, le, depth + 1)
+    if c["k"] == "Path" and c["path"] in le:
+        return function_polarity(le[c["path"]], positive, le, depth + 1)
+    t = render(c).replace(" ", "")
+    if "definition_type()" not in t or "Function" not in t or "Template" in t:
+        return None
+    if c["k"] == "Macro" and last(c["name"]) == "matches":
+        return positive
+    if c["k"] == "Binary" and c["op"] in ("==", "!="):
+        return positive == (c["op"] == "==")
+    return None
+
+
 def seed_value(fn, call):
     """(start, end) degree names of the range passed to set_degree, through lets."""
     e = call["args"][1]
@@ -287,20 +313,38 @@ def rule_env(ctx):
         ins = list(method_calls(sdf["body"], "insert")) if sdf else []
         ctx.check(R, "DegreeEnvironment/set_degree-records-the-given-range", len(ins) == 1 and not (conditions_to(sdf["body"], ins[0]) or []), "the insert must be unconditional", DMF)
     seeds = list(method_calls(fn["body"], "set_degree"))
-    ctx.floor(R, "parameter-seeds", len(seeds), 2)
+    ctx.floor(R, "parameter-seeds", len(seeds), 1)
     for s in seeds:
+        le = let_env(fn["body"], s)
+        base = [(c[1], bool(c[2])) for c in conditions_to(fn["body"], s) if c[0] == "if"]
         conds = [fact_str(c) for c in conditions_to(fn["body"], s)]
-        val = seed_value(fn, s)
-        is_fn = any("Function" in c and not c.startswith("!") for c in conds)
-        not_fn = any("Function" in c and c.startswith("!") for c in conds)
-        if is_fn:
-            ok = val == ("Constant", "Linear")
-            ctx.check(R, "Cfg::propagate_degrees/function-parameters", ok, "function parameter seeded with %s under %s" % (val, conds), site(CFG, s))
-        elif not_fn:
-            ok = val == ("Constant", "Constant")
-            ctx.check(R, "Cfg::propagate_degrees/template-parameters", ok, "template parameter seeded with %s under %s" % (val, conds), site(CFG, s))
-        else:
-            ctx.bad(R, "Cfg::propagate_degrees/seed-context", "seed %s under unrecognised context %s" % (val, conds), site(CFG, s))
+        # the range handed over, through lets; an `if` expression contributes its condition to each branch
+        e = s["args"][1]
+        for _ in range(4):
+            e = strip(e)
+            if e["k"] == "Path" and "::" not in e["path"] and e["path"] not in DEG and e["path"] in le:
+                e = le[e["path"]]
+                continue
+            break
+        e = strip(e)
+        cases = [(base, e)]
+        if e["k"] == "If" and e.get("else") is not None and e["cond"]["k"] != "Let":
+            cases = [(base + [(e["cond"], True)], astlib_result(e["then"])), (base + [(e["cond"], False)], astlib_result(e["else"]))]
+        for cs, ve in cases:
+            val = seed_value(fn, dict(s, args=[s["args"][0], ve])) if ve is not None else None
+            pol = [x for x in (function_polarity(c_, p_, le) for c_, p_ in cs) if x is not None]
+            for c in conditions_to(fn["body"], s):
+                if c[0] == "iflet" and render(c[1]).replace(" ", "").split("::")[-1] == "Function" and "definition_type" in render(c[2]):
+                    pol.append(bool(c[3]))
+            shown = conds + [("" if p_ else "!") + render(c_) for c_, p_ in cs[len(base):]]
+            if pol and all(pol):
+                ok = val == ("Constant", "Linear")
+                ctx.check(R, "Cfg::propagate_degrees/function-parameters", ok, "function parameter seeded with %s under %s" % (val, shown), site(CFG, s))
+            elif pol and not any(pol):
+                ok = val == ("Constant", "Constant")
+                ctx.check(R, "Cfg::propagate_degrees/template-parameters", ok, "template parameter seeded with %s under %s" % (val, shown), site(CFG, s))
+            else:
+                ctx.bad(R, "Cfg::propagate_degrees/seed-context", "seed %s under unrecognised context %s" % (val, shown), site(CFG, s))
     # Declaration arm
     sfn = find_fn(SI, "propagate_degrees", "Statement")
     if sfn is None:
